@@ -59,7 +59,6 @@ func c08SameNet(g *c08Ghost, ip [4]byte, ones int) bool {
 	return g.ones == ones && g.ip == ip
 }
 
-
 func harnessC08History() {
 	local := c08ID(3)
 	t := NewTable(local)
